@@ -343,11 +343,21 @@ func loadFindings() []finding {
 	return ret
 }
 
+// evidenceDir is <root>/evidence; tools that run the checks against a deliberately broken copy of the
+// repository (tools/trymut) redirect it with VERIF_EVIDENCE_DIR so that the committed evidence, which
+// describes the unchanged tree, is not overwritten.
+func evidenceDir() string {
+	if d := os.Getenv("VERIF_EVIDENCE_DIR"); d != "" {
+		return d
+	}
+	return filepath.Join(Root, "evidence")
+}
+
 // Orchestrate runs the whole check for one property and returns the process exit code.
 func Orchestrate(m *Monitor, tier string, seed int64, exe, exeRace string) int {
 	start := time.Now()
 	os.MkdirAll(filepath.Join(Root, ".scratch"), 0o755)
-	os.MkdirAll(filepath.Join(Root, "evidence"), 0o755)
+	os.MkdirAll(evidenceDir(), 0o755)
 	scratch, err := os.MkdirTemp(filepath.Join(Root, ".scratch"), m.ID+"-")
 	if err != nil {
 		fmt.Println("scratch:", err)
@@ -621,7 +631,7 @@ func Orchestrate(m *Monitor, tier string, seed int64, exe, exeRace string) int {
 	}
 	ev["coverage"] = cov
 	eb, _ := json.MarshalIndent(ev, "", " ")
-	os.WriteFile(filepath.Join(Root, "evidence", m.ID+".json"), eb, 0o644)
+	os.WriteFile(filepath.Join(evidenceDir(), m.ID+".json"), eb, 0o644)
 
 	fmt.Printf("%s tier=%s seed=%d cases=%d evals=%d distinct=%d violations=%d known=%d inconclusive=%d races=%d wall=%.1fs\n",
 		m.ID, tier, seed, len(cases), merged.Evals, len(distinct), len(fresh), len(known), merged.Counters["inconclusive"], len(races), wall)
